@@ -166,7 +166,8 @@ def r122(ctx):
                    where=f"{b.file}:{ln}", sample=f"insert on {ctrl}")
             ae = fv.expr(c.args[2])
             a = render(ae)
-            amt_ok = amt in a or (amt == "non_beneficial" and R.mentions_call(ae, "validate_onchain_tx") and "1000" in a)
+            a_val = render(fnview(ctx, b).expr(c.args[2]))      # values instead of variable names
+            amt_ok = amt in a or (amt == "non_beneficial" and R.mentions_call(ae, "validate_onchain_tx") and "1000" in a_val)
             ctx.ob("R12.2", amt_ok, f"{fn}/insert-amount", f"`{fn}` inserts amount `{a[:100]}` (expected the request's {amt})",
                    where=f"{b.file}:{ln}", sample=a[:80])
             t = render(fv.expr(c.args[1]))
@@ -270,6 +271,8 @@ def r123(ctx):
     vb = p.fn(f"{VC}::velocity")
     vv = fnview(ctx, vb, policy=False).named()
     it = [c for bi, c in vb.calls() if c.callee and c.callee.name.endswith("Iterator>::next")]
+    # ... or a fold / sum over the same iterator (`self.buckets.iter().fold(0, |s, b| s.saturating_add(*b))`)
+    it += [c for bi, c in vb.calls() if c.callee and c.callee.name.rsplit("::", 1)[-1] in ("fold", "sum") and "Iterator" in c.callee.name]
     src_ok = False
     for c in it:
         e = vv.expr(c.args[0])
